@@ -312,7 +312,11 @@ func ext۰os۰Exit(fr *frame, args []value) value {
 }
 
 func ext۰unicode۰utf8۰DecodeRuneInString(fr *frame, args []value) value {
-	r, n := utf8.DecodeRuneInString(args[0].(string))
+	s, ok := args[0].(string)
+	if !ok {
+		return fallThrough{} // symbolic bytes: interpret the real body
+	}
+	r, n := utf8.DecodeRuneInString(s)
 	return tuple{r, n}
 }
 
